@@ -19,6 +19,7 @@ func init() {
 	vpRegister("c19_obs_matrix", vpH_c19_obs_matrix)
 	vpRegister("c19_obs_step", vpH_c19_obs_step)
 	vpRegister("c19_disjoint", vpH_c19_disjoint)
+	vpRegister("c19_warnings", vpH_c19_warnings)
 }
 
 func vpYStr(v string) *yaml.Node { return &yaml.Node{Kind: yaml.ScalarNode, Tag: "!!str", Value: v} }
@@ -161,4 +162,35 @@ func vpH_c19_obs_step() {
 	vpAssert(err == nil, "command step marshals")
 	vpAssert(step.Command == "c" && len(step.Plugins) == 1 && step.Plugins[0] == p && step.Matrix == m && len(step.Env) == 1 && step.Env["k"] == "v", "marshalling does not modify the step")
 	vpAssert(step.RemainingFields == nil && step.Signature == nil && step.Cache == nil, "marshalling does not materialise absent fields")
+}
+
+// Warnings are per parse: what two parses report (also for the same kind of
+// problem) shares no mutable memory, so one caller annotating or wrapping its
+// warning cannot be seen by the other, and no package-level value is written.
+func vpH_c19_warnings() {
+	mk := func(n int) any {
+		var steps []any
+		for i := 0; i < n; i++ {
+			switch vpInt(0, 3) {
+			case 0:
+				steps = append(steps, vpMapOf("llama", "Kuzco")) // kind cannot be inferred
+			case 1:
+				steps = append(steps, vpMapOf("type", "nope", "command", "c")) // unknown type
+			case 2:
+				steps = append(steps, "mystery") // unknown scalar step
+			default:
+				steps = append(steps, vpMapOf("command", "c", "plugins", "not-a-list")) // malformed field
+			}
+		}
+		return vpMapOf("steps", steps)
+	}
+	d1, d2 := mk(vpInt(1, 2)), mk(1)
+	p1, p2 := new(Pipeline), new(Pipeline)
+	e1 := ordered.Unmarshal(d1, p1)
+	n1 := vpCountLeaves(e1)
+	e2 := ordered.Unmarshal(d2, p2)
+	vpAssert(e1 != nil && e2 != nil, "each parse reports its fallbacks")
+	vpAssert(vpShared(e1, e2) == 0, "the warnings of two parses share no mutable memory")
+	vpAssert(vpShared(p1, p2) == 0, "the pipelines of two parses share no mutable memory")
+	vpAssert(vpCountLeaves(e1) == n1 && vpCountLeaves(e2) == 1, "a later parse does not change what an earlier one reported, and reports only its own fallbacks")
 }
